@@ -61,7 +61,22 @@ def _adapters():
         r = bmisc.xBinnedLightCurve.__iadd__(me, ot)
         return r.COUNTS, r.EXPOSURE, r.ERROR
 
+    from ixpeobssim.binning import polarization as bpol
+
+    def pcube(a):
+        def mk(pref):
+            o = ns(**{k: a['%s_%s' % (pref, k)].copy() for k in ('E_MEAN', 'MU', 'COUNTS', 'W2', 'I', 'Q', 'U')})
+            setattr(o, '_xBinnedFileBase__data_dict', dict(E_MEAN=o.E_MEAN, MU=o.MU, I=o.I))
+            return o
+        me, ot = mk('self'), mk('other')
+        setattr(me, '_xBinnedPolarizationCube__check_compat', lambda other: None)
+        setattr(me, '_xBinnedPolarizationCube__recalculate_derived', lambda: None)
+        me._weighted_average = lambda other, c, w, **k: bbase.xBinnedFileBase._weighted_average(me, other, c, w, **k)
+        r = bpol.xBinnedPolarizationCube.__iadd__(me, ot)
+        return r.E_MEAN, r.MU, r.COUNTS, r.W2, r.I, r.Q, r.U
+
     A = {
+        'pcube_iadd': pcube,
         'lc_iadd': lciadd,
         'weighted_average': wavg,
         'stokes_q': lambda a: SA.stokes_q(a['phi']),
@@ -153,6 +168,8 @@ def domain(name, lean, g, n):
         v = u(-8., 8., n)
     elif name in ('half_side_x', 'half_side_y'):
         v = u(5., 7.5, n)
+    elif name in ('self_I', 'other_I') and lean == 'pcube_iadd':          # total intensity of the bin in each file: positive, or exactly zero (empty bin)
+        v = numpy.where(u(0, 1, n) < 0.75, u(0.5, 5000., n), 0.)
     elif name in ('self_EXPOSURE', 'other_EXPOSURE'):                   # exposures of the two light curves in a bin: positive or exactly zero
         v = numpy.where(u(0, 1, n) < 0.75, u(0.5, 2000., n), 0.)
     elif name in ('self_COUNTS', 'other_COUNTS', 'self_ERROR', 'other_ERROR'):
